@@ -651,8 +651,12 @@ class Prop:
         nx = exp["norm"]
         err = fro(y - x)
         bound_eps = 0.0 if batch else eps     # the library's batch rounding does not truncate by eps: unchanged
+        # floating-point noise of the rank decision itself: singular values from an SVD carry ~1e-16 |x|, those taken
+        # from the eigenvalues of a Gram matrix ('eig', sparse_tt_svd) ~1e-8 |x| (TINY above): a component of that size
+        # cannot be told from noise by that algorithm, whatever eps
+        noise = 1e-6 if batch else (1e-7 if case.get("alg") == "eig" or op == "sparse_tt_svd" else 1e-13)
         if not binding:
-            if not (err <= bound_eps * (1 + RTOL) * nx + (1e-6 if batch else 1e-13) * nx + 1e-12 * exp["scale"]):
+            if not (err <= bound_eps * (1 + RTOL) * nx + noise * nx + 1e-12 * exp["scale"]):
                 return False, "relative error %g exceeds eps = %g (|x| = %g)" % (err / nx if nx else err, eps, nx)
         # ---- exact ranks at a tolerance just above noise
         if exp.get("exact") is not None and not binding and not batch:
